@@ -53,7 +53,9 @@ contract(L + "SingleActiveLeafUnitEventHandler._extract_active_leaf_unit", "C18"
          ensures=["self._active_leaf_unit is not None", "self._active_leaf_unit.velocity is not None",
                   "len(self._active_leaf_unit.velocity) == 3", "self._active_leaf_unit.time_stamp is not None",
                   "fin(self._active_leaf_unit.time_stamp)"],
-         note="interface: the single leaf unit with a velocity (three components, normalised time stamp)")
+         note="interface: the single leaf unit with a velocity - PROVED from the body by the contract "
+              "_extract_active_leaf_unit#body in handlers_c07 (unique leaf with a velocity, AssertionError otherwise); the "
+              "remaining clauses (three components, normalised time stamp) are C07's invariant of every moving unit")
 contract(L + "BasicEventHandler._time_slice_all_units_in_state", "C18", model="R", assume_only=True,
          modifies=["allcontents(float)", "ALL._quotient", "ALL._remainder"],
          ensures=["val(self._event_time) == old(val(self._event_time))"],
